@@ -393,8 +393,12 @@ func (sc *Scenario) fertFile() string {
 	if sc.OtherField {
 		fmt.Fprintf(&b, "%-9s %03d %-3s %s\n", "OTHERF", 111, "KAS", FmtDate(sc.Start.AddDays(40), sc.DateFormat))
 	}
-	for _, e := range sc.Fert {
+	for i, e := range sc.Fert {
 		fmt.Fprintf(&b, "%-9s %03d %-3s %s\n", sc.Field, e.Amount, e.Type, FmtDate(e.D, sc.DateFormat))
+		if sc.OtherField && i%2 == 1 {
+			// a file sorted by date holds the rows of several fields interleaved
+			fmt.Fprintf(&b, "%-9s %03d %-3s %s\n", "OTHERF", 50+i, "KAS", FmtDate(e.D, sc.DateFormat))
+		}
 	}
 	if sc.OtherField {
 		fmt.Fprintf(&b, "%-9s %03d %-3s %s\n", "ZZZ", 99, "RM", FmtDate(sc.Start.AddDays(10), sc.DateFormat))
@@ -408,8 +412,11 @@ func (sc *Scenario) tillFile() string {
 	if sc.OtherField {
 		fmt.Fprintf(&b, "%-9s %3d %d   %s\n", "OTHERF", 25, 1, FmtDate(sc.Start.AddDays(33), sc.DateFormat))
 	}
-	for _, e := range sc.Till {
+	for i, e := range sc.Till {
 		fmt.Fprintf(&b, "%-9s %3d %d   %s\n", sc.Field, e.Depth, e.Type, FmtDate(e.D, sc.DateFormat))
+		if sc.OtherField && i%2 == 0 {
+			fmt.Fprintf(&b, "%-9s %3d %d   %s\n", "OTHERF", 20, 1, FmtDate(e.D, sc.DateFormat))
+		}
 	}
 	return b.String()
 }
@@ -422,8 +429,11 @@ func (sc *Scenario) irrFile() string {
 	if sc.OtherField {
 		fmt.Fprintf(&b, "%-9s %d %d %s\n", "OTHERF", 15, 20, FmtDate(sc.Start.AddDays(50), sc.DateFormat))
 	}
-	for _, e := range sc.Irr {
+	for i, e := range sc.Irr {
 		fmt.Fprintf(&b, "%-9s %d %d %s\n", sc.Field, e.MM, e.Conc, FmtDate(e.D, sc.DateFormat))
+		if sc.OtherField && i%2 == 0 {
+			fmt.Fprintf(&b, "%-9s %d %d %s\n", "OTHERF", 11, 7, FmtDate(e.D, sc.DateFormat))
+		}
 	}
 	b.WriteString("end\n")
 	return b.String()
